@@ -336,8 +336,13 @@ func (s *Swarm) OnGossipUnicast(src mesh.PeerName, buf []byte) (err error) {
 		return err
 	}
 
-	// Go through each message in the decoded frame
+	// Go through each message in the decoded frame, skipping those with an
+	// identifier too short to contain the fixed part and the contract.
 	for i := range frame {
+		if len(frame[i].ID) < 20 {
+			continue
+		}
+
 		s.OnMessage(&frame[i])
 	}
 
